@@ -223,6 +223,17 @@ def oversize_cases(ctx, wd):
             out.append(("oversize:%s:%s" % (tag, name), (PREAMBLE + stmt + "\n").encode()))
     out.append(("oversize:jump-millis", (PREAMBLE + "time::jump_millis(18446744073709551615);\n").encode()))
     out.append(("oversize:clock-sum", (PREAMBLE + "time::jump_nanos(18446744073709551615);\ntime::jump_nanos(1);\n").encode()))
+    # the clock a few hundred ns before 2^64, then every kind of emitting statement (one packet, a burst computed in
+    # place, a stored packet, a stored burst, a tunnelled burst, a further jump): the edge must be a diagnostic whichever
+    # arm of add_expr meets it, and it may fall on any packet of a burst
+    emit = [("pkt", "ipv4::udp::unicast(1.2.3.4:1, 1.2.3.5:2, \"x\");"), ("burst", "o_t.open();"),
+            ("message", "o_t.client_message(\"0123456789\");"), ("close", "o_t.client_close();"),
+            ("stored-pkt", "v_pkt;"), ("stored-burst", "v_gen;"), ("host", "dns::host(o_u, \"a.b\", 1.1.1.1);"),
+            ("tunnel-burst", "o_v.encap(v_gen);"), ("jump", "time::jump_micros(1);"), ("nil", "v_nil;")]
+    for room in (0, 1, 500, 700, 1200, 1900, 2600, 5000):
+        for tag, stmt in emit:
+            src = PREAMBLE + OBJ_SETUP + "time::jump_nanos(%d);\n%s\n%s\n" % (2 ** 64 - 1 - room, stmt, stmt)
+            out.append(("oversize:clock-edge:%s:%d" % (tag, room), src.encode()))
     return out
 
 
